@@ -16,6 +16,7 @@ def main(argv):
         prop = payload["property"]
         mod = importlib.import_module("props." + prop.lower())
         ctx = core.Ctx(prop, payload.get("tier", "quick"), int(payload.get("seed", 0)))
+        ctx.driver = mod.DRIVER
         try:
             return mod.replay(ctx, payload)
         finally:
@@ -28,9 +29,10 @@ def main(argv):
     seed = int(os.environ.get("VERIF_SEED", "1"))
     mod = importlib.import_module("props." + prop.lower())
     ctx = core.Ctx(prop, tier, seed)
+    ctx.driver = mod.DRIVER
     try:
-        obl = core.lean_obligations(ctx, mod.LEAN_MODULES, facts=getattr(mod, "USES_FACTS", True),
-                                    leanchecker=(tier == "thorough"))
+        obl = core.lean_obligations(ctx, mod.LEAN_MODULES, facts=getattr(mod, "USES_FACTS", False),
+                                    leanchecker=(tier == "thorough"), driver=mod.DRIVER)
         res = mod.run(ctx, obl)
         return core.finish(ctx, obl, res)
     except core.InfraError as e:
